@@ -359,7 +359,7 @@ where
         if let Some((line_num, pos, byte)) = self.first_byte()? {
             if byte == b'>' {
                 self.buf_pos.start = pos;
-                self.position.byte = pos as u64;
+                self.position.byte += pos as u64;
                 self.position.line = line_num as u64;
                 self.search_pos = pos + 1;
                 return Ok(true);
@@ -376,9 +376,9 @@ where
     }
 
     fn first_byte(&mut self) -> Result<Option<(usize, usize, u8)>, Error> {
-        let mut line_num = 0;
-
         while fill_buf(&mut self.buf_reader)? > 0 {
+            // lines and bytes that were already skipped are tracked in self.position
+            let mut line_num = self.position.line as usize;
             let mut pos = 0;
             let mut last_line_len = 0;
             for line in self.get_buf().split(|b| *b == b'\n') {
@@ -391,7 +391,11 @@ where
             }
             // If an orphan '\r' is found at the end of the buffer,
             // we need to move it to the start and re-search the line
-            self.buf_reader.consume(pos - 1 - last_line_len);
+            // (the last, unterminated line is therefore counted again)
+            let consumed = pos - 1 - last_line_len;
+            self.position.line = (line_num - 1) as u64;
+            self.position.byte += consumed as u64;
+            self.buf_reader.consume(consumed);
             self.buf_reader.make_room();
         }
         Ok(None)
